@@ -192,7 +192,9 @@ def startW (rec : Rec) (wuid : Nat) (wt : Waiter) : M Unit := do
   let w ← getW wuid
   if w.status ≠ .stopped then
     if (w.pids.length : Int) < w.np then
-      reapProcesses wuid
+      for pid in w.pids do
+        let st ← procStatus pid
+        if isDead st then reapProcess wuid pid none
       await rec (.spawnProcesses wuid) .startTail wt
     else deliver rec wt .unit
   else
